@@ -38,13 +38,14 @@ P == INSTANCE Provider WITH Kind <- PKind,
 
 (***************************************************************************)
 (* Rule sets.  Version k of source s is named "v<k>"; all versions have    *)
-(* the rule "keep" (/s/keep); v1, v2, v5, v6, ... also "odd" (/s/odd),     *)
-(* v4, v8, ... also "any" (/s/:x): v1 -> v2 changes definitions only (same  *)
-(* rule ids), v2 -> v3 drops a rule, v3 -> v4 adds a wildcard rule.  Every *)
-(* rule tags its responses "<s>.<rule>@<version>".                         *)
+(* the rule "keep" (/s/keep); v2, v3, v6, v7, ... also "odd" (/s/odd),     *)
+(* v4, v8, ... also "any" (/s/:x): v1 -> v2 appends a rule, v2 -> v3       *)
+(* changes definitions only (same rule ids), v3 -> v4 replaces a rule by a *)
+(* wildcard rule, v4 -> v5 drops a rule.  Every rule tags its responses    *)
+(* "<s>.<rule>@<version>".                                                 *)
 (***************************************************************************)
 VerName(k)  == "v" \o ToString(k)
-VerRules(k) == <<"keep">> \o (IF k % 4 \in {1, 2} THEN <<"odd">> ELSE <<>>) \o (IF k % 4 = 0 THEN <<"any">> ELSE <<>>)
+VerRules(k) == <<"keep">> \o (IF k % 4 \in {2, 3} THEN <<"odd">> ELSE <<>>) \o (IF k % 4 = 0 THEN <<"any">> ELSE <<>>)
 
 Lit(x) == [t |-> "lit", v |-> x, n |-> ""]
 One(x) == [t |-> "one", v |-> "", n |-> x]
@@ -55,10 +56,12 @@ MkRule(src, name, ver) ==
   [id |-> TagOf(src, name, ver), src |-> src, bt |-> FALSE, scheme |-> "", methods |-> <<>>, hosts |-> <<>>,
    routes |-> <<[expr |-> IF name = "any" THEN <<Lit(src), One("x")>> ELSE <<Lit(src), Lit(name)>>, params |-> <<>>]>>]
 
-(* an active value: None or [c |-> version name, rules |-> sequence of rule names] *)
-None == [c |-> "none", rules |-> <<>>]
-Keep == [c |-> "keep", rules |-> <<>>]
-RuleSetOf(src, a) == [i \in 1..Len(a.rules) |-> MkRule(src, a.rules[i], a.c)]
+(* an active value: None or [c |-> name, rules |-> sequence of rule names, vs |-> the version  *)
+(* each of these rules stems from] (one version, except for the torn reads below)              *)
+None == [c |-> "none", rules |-> <<>>, vs |-> <<>>]
+Keep == [c |-> "keep", rules |-> <<>>, vs |-> <<>>]
+Version(c, rules) == [c |-> c, rules |-> rules, vs |-> [i \in 1..Len(rules) |-> c]]
+RuleSetOf(src, a) == [i \in 1..Len(a.rules) |-> MkRule(src, a.rules[i], a.vs[i])]
 
 Req(src, seg) == [path |-> <<src, seg>>, method |-> "GET", scheme |-> "http", host |-> "h"]
 
@@ -69,26 +72,29 @@ RespDirect(src, a, seg) ==
   ELSE Probe(<<src>>, [x \in {src} |-> RuleSetOf(src, a)], Req(src, seg), FALSE)
 
 (* The same, tabulated once per (set of rule names, segment) for the segments the drivers use: *)
-(* which rule NAME answers does not depend on the source's name nor on the version.  HeimdallMC *)
-(* checks Resp = RespDirect.                                                                    *)
+(* which rule NAME answers does not depend on the source's name nor on the versions.           *)
+(* HeimdallMC checks Resp = RespDirect.                                                         *)
 RuleNames == {"keep", "odd", "any"}
 TabSegs == {"keep", "odd", "zzz"}
 OrderedNames(ns) == SelectSeq(<<"keep", "odd", "any">>, LAMBDA n : n \in ns)
 WinnerTab == [ns \in SUBSET RuleNames, seg \in TabSegs |->
-                LET a == [c |-> "V", rules |-> OrderedNames(ns)]
-                    ids == RespDirect("X", a, seg)
+                LET ids == RespDirect("X", Version("V", OrderedNames(ns)), seg)
                 IN {IF id = "norule" THEN id ELSE CHOOSE n \in ns : TagOf("X", n, "V") = id : id \in ids}]
+
+VerOfRule(a, n) == a.vs[CHOOSE i \in 1..Len(a.rules) : a.rules[i] = n]
 
 Resp(src, a, seg) ==
   IF a = None THEN {"norule"}
   ELSE IF seg \in TabSegs /\ ToSet(a.rules) \subseteq RuleNames /\ a.rules = OrderedNames(ToSet(a.rules))
-  THEN {IF n = "norule" THEN n ELSE TagOf(src, n, a.c) : n \in WinnerTab[ToSet(a.rules), seg]}
+  THEN {IF n = "norule" THEN n ELSE TagOf(src, n, VerOfRule(a, n)) : n \in WinnerTab[ToSet(a.rules), seg]}
   ELSE RespDirect(src, a, seg)
 
 (***************************************************************************)
 (* The contract.                                                           *)
-(*   Ws  writes of one source: sequence of [c, rules, seq]; seq is taken   *)
-(*       BEFORE the content becomes visible                                *)
+(*   Ws  writes of one source: sequence of [c, rules, mode, seq]; seq is   *)
+(*       taken BEFORE the content becomes visible; mode "inplace" = the    *)
+(*       file was truncated (a write of its own, content "empty") and is   *)
+(*       now written with one write(2)                                     *)
 (*   As  acknowledgements of one source: sequence of [idx, act, seq]:      *)
 (*       after write idx nothing was pending and act was served; As[1] is  *)
 (*       the start of the service: [idx |-> 0, act |-> None, seq |-> 0]    *)
@@ -97,9 +103,25 @@ Resp(src, a, seg) ==
 Ack0 == [idx |-> 0, act |-> None, seq |-> 0]
 
 (* what a provider that sees content w does to the active version *)
-Eff(w) == IF P!IsValid(w.c) THEN [c |-> w.c, rules |-> w.rules]
+Eff(w) == IF P!IsValid(w.c) THEN Version(w.c, w.rules)
           ELSE IF w.c \in P!Gone THEN None
           ELSE Keep     \* unreadable / refused content: the previous version stays
+
+(* Torn read.  Rewriting a file in place is not atomic for a reader that is in the middle of   *)
+(* the file: it has read the complete old content, the file is truncated and rewritten, and    *)
+(* the next read (at the old end of file) returns the tail of the new content.  If the old     *)
+(* rules are a proper prefix of the new ones (a rule was appended) that is a well-formed rule  *)
+(* set: the old rules in their OLD version followed by the appended rules of the new version.  *)
+(* Observed on the real provider (the YAML decoder reads until end of file); the following     *)
+(* notification makes the provider load the file again.                                        *)
+IsProperPrefix(a, b) == Len(a) < Len(b) /\ SubSeq(b, 1, Len(a)) = a
+Torn(old, new) ==
+  [c |-> old.c \o "+" \o new.c, rules |-> new.rules,
+   vs |-> [i \in 1..Len(new.rules) |-> IF i <= Len(old.rules) THEN old.c ELSE new.c]]
+TornReads(Ws, lo, j) ==
+  IF Mutant # "contract_without_torn_reads" /\ Ws[j].mode = "inplace" /\ P!IsValid(Ws[j].c)
+  THEN {Torn(Ws[k], Ws[j]) : k \in {i \in lo..(j - 1) : i >= 1 /\ P!IsValid(Ws[i].c) /\ IsProperPrefix(Ws[i].rules, Ws[j].rules)}}
+  ELSE {}
 
 MaxOf(S) == CHOOSE x \in S : \A y \in S : y <= x
 MinOf(S) == CHOOSE x \in S : \A y \in S : x <= y
@@ -107,14 +129,17 @@ MinOf(S) == CHOOSE x \in S : \A y \in S : x <= y
 WrittenBefore(Ws, n) == MaxOf({0} \cup {j \in 1..Len(Ws) : Ws[j].seq < n})
 FloorOf(As, n) == As[MaxOf({k \in 1..Len(As) : As[k].seq < n})]
 
+(* what write j may make active: its content, or a torn read of it *)
+EffsAt(Ws, fl, j) == ({Eff(Ws[j])} \ {Keep}) \cup TornReads(Ws, fl.idx, j)
+
 (* the versions that may be active between an acknowledgement and write hi: a provider *)
 (* may see any of the contents written in between, in order                            *)
-Poss(Ws, fl, hi) == {fl.act} \cup ({Eff(Ws[j]) : j \in (fl.idx + 1)..hi} \ {Keep})
+Poss(Ws, fl, hi) == {fl.act} \cup UNION {EffsAt(Ws, fl, j) : j \in (fl.idx + 1)..hi}
 
 (* write indices that explain the tag: the acknowledged state counts as index fl.idx *)
 Cands(src, Ws, fl, hi, seg, tag) ==
   (IF tag \in Resp(src, fl.act, seg) THEN {fl.idx} ELSE {})
-  \cup {j \in (fl.idx + 1)..hi : Eff(Ws[j]) # Keep /\ tag \in Resp(src, Eff(Ws[j]), seg)}
+  \cup {j \in (fl.idx + 1)..hi : \E a \in EffsAt(Ws, fl, j) : tag \in Resp(src, a, seg)}
 
 Explains(src, Ws, lo, hi, seg, tag) ==
   \E j \in lo..hi : Eff(Ws[j]) # Keep /\ tag \in Resp(src, Eff(Ws[j]), seg)
